@@ -185,6 +185,12 @@ def run(ctx):
         [key(ord(c)) for c in "xuvxx"] + [key(K["KP_Left"])] * 7 + [key(K["Delete"])] * 6 + [key(K["Escape"])] * 2,
     ]
     synth += [(s, b) for s in englib.SYNTH for b in boundary]
+    # round 3: the same alphabet on the chains with punctuator / punct_segmentor (C05_edit_refines_buffer_punct: no spelling
+    # letter is a key of the punctuation tables)
+    n_punct = max(40, n_synth // 4)
+    synth += [(englib.SYNTH_PUNCT[i % 2], englib.gen_edit_history(rng, length())) for i in range(n_punct)]
+    synth += [(s, b) for s in englib.SYNTH_PUNCT for b in boundary]
+    ctx.coverage["punct_chain_histories"] = n_punct + 2 * len(boundary)
     stock = [(englib.STOCK[i % 4], englib.gen_edit_history(rng, length())) for i in range(n_stock)]
     stock += [(s, b) for s in englib.STOCK for b in boundary]
     # long inputs: more than 128 spelling letters in front of the caret (both tiers)
